@@ -53,11 +53,7 @@ theorem inv_boot_and_handlers (c : Ctl) (ch : Chain) (now : Int) (hi : Inv c) :
       simp only [Bool.false_eq_true, if_false]
       cases hd : t.dest with
       | none => simp [Inv]
-      | some h =>
-        simp only
-        by_cases hsame : c.terms.dest = some h
-        · simp only [hsame, if_true]; exact hi
-        · simp [hsame, Inv, hd]
+      | some h => simp [Inv, hd]
   · unfold settle
     cases hr : c.run with
     | none => simpa [hr] using hi
@@ -132,8 +128,20 @@ theorem restart_not_live (ch : Chain) (now : Int) (hl : ch.purchased = false ∨
 
 /-- **a destination update is followed**: a live, running contract whose destination changes to another
 valid pool is fulfilled towards the new pool -/
-theorem dest_update_followed (c : Ctl) (ch : Chain) (now : Int) (h : String) (hpay : ch.payload = .valid h)
-    (hne : c.terms.dest ≠ some h) : fulfilling (onDestUpdated c ch now) = some h := by
-  simp [onDestUpdated, load_valid ch h hpay, hne, fulfilling]
+theorem dest_update_followed (c : Ctl) (ch : Chain) (now : Int) (h : String) (hpay : ch.payload = .valid h) :
+    fulfilling (onDestUpdated c ch now) = some h := by
+  simp [onDestUpdated, load_valid ch h hpay, fulfilling]
+
+/-- a destination update that reaches a contract which is over starts a watcher that allocates nothing: it
+stops by itself ten seconds later, before the start-up delay has passed -/
+theorem dest_update_on_ended_contract_stops (c : Ctl) (ch : Chain) (now : Int) (h : String) (hpay : ch.payload = .valid h)
+    (hover : ch.purchased = false ∨ ch.startedAt + ch.len ≤ now) :
+    (settle (onDestUpdated c ch now) (now + 10)).run = none := by
+  have hl := load_valid ch h hpay
+  simp only [onDestUpdated, hl, settle, exitAt]
+  rcases hover with hp | hp
+  · simp [hp]
+  · have : ¬ (ch.purchased = true ∧ now + 10 < ch.startedAt + ch.len) := by intro ⟨_, h2⟩; omega
+    simp [this]
 
 end PRV.Props.C08
